@@ -64,7 +64,7 @@ def make_types(rng):
     keys = [0, 1, 2, 5]
 
     def en(rng, ctrl_val=None):
-        v = rng.choice(keys) if rng.random() < 0.9 else rng.randrange(8)
+        v = rng.choice(keys) if rng.random() < 0.97 else rng.randrange(8)
         return f"{v:03b}"
     add(PT("ENUM_T", ["pt", S("ENUM_T"), ["enum"] + [[f"i{k}", S(f"STATE_{k}")] for k in keys],
                       ["int", "3", S("unsigned"), S(MSB), NOCAL]], 3, en))
@@ -164,6 +164,7 @@ class Defn:
                 else:
                     nc = Cont(self._pname("NEST"), abstract=False)
                     self._body(nc, rng.randrange(1, 3))
+                    self._align(nc)
                     self.all.append(nc)
                     if self.shared_nested is None:
                         self.shared_nested = nc
@@ -204,20 +205,38 @@ class Defn:
                 t = self.types[rng.choice(tnames)]
                 c.entries.append(("p", self._pname(), t))
 
+    def _align(self, c):
+        """Pad the container's own entries to a whole number of bytes (so that steered packets can be clean)."""
+        if self.rng.random() < 0.15:
+            return
+        w = 0
+        for e in c.entries:
+            if e[0] == "p" and e[2].width is not None:
+                w += e[2].width
+        k = -w % 8
+        if k:
+            tn = f"PAD{k}_T"
+            if tn not in self.types:
+                self.types[tn] = PT(tn, ["pt", S(tn), "plain", ["bin", str(k), "-", "1", "-", "-"]], k,
+                                    lambda rng, c=None, k=k: rbits(rng, k))
+            c.entries.append(("p", self._pname("PAD"), self.types[tn]))
+
     def _grow(self, c, depth, max_depth, fanout, selector):
         rng = self.rng
         if depth > 0 or rng.random() < 0.3:
             self._body(c, rng.randrange(0, 5))
-        if depth >= max_depth:
-            return
-        nchild = rng.randrange(0, fanout + 1) if depth > 0 else rng.randrange(1, fanout + 2)
+        nchild = 0
+        if depth < max_depth:
+            nchild = rng.randrange(0, fanout + 1) if depth > 0 else rng.randrange(1, fanout + 2)
         if nchild == 0:
+            self._align(c)
             return
         # the selector the children are distinguished on: the APID at the top, else a fresh small field of this container
         if depth > 0:
             sel = self._pname("SEL")
             c.entries.append(("p", sel, self.types["U3_T"]))
             selector = (sel, 3)
+        self._align(c)
         c.selector = selector
         from harness.props import c06
         vals = rng.sample(range(1, 1 << min(selector[1], 6)), nchild)
